@@ -206,6 +206,8 @@ def run_one(hdirs, case, attribute_re, idx, prop):
     if case.expect_exit is not None:
         for kv in case.expect_exit(out.rc, out.stdout, out.stderr):
             out.violations.append(kv)
+    elif out.rc == 66 and case.flavour == "tsan" and out.result is not None:
+        pass  # TSan's "reports were printed" exit code; the reports themselves were classified above
     elif out.rc != 0 and not any(":sanitizer:" in k for k, _ in out.violations):
         if out.result is None or out.rc < 0 or out.rc > 2:
             out.violations.append(("%s:crash:%s:%s" % (prop, case.cls, signame(out.rc)),
